@@ -35,7 +35,7 @@ RULE = (
     "distinct by construction"
 )
 BOUNDS = {
-    "quick": "6 lat x 6 lon x 4 alt = 144 stations; 8 az x 4 el x 3 ranges x 2 velocities = 192 targets; 3 dates; 6 mask tables x ~60 queries",
+    "quick": "6 lat x 6 lon x 4 alt = 144 stations; 8 az x 4 el x 3 ranges x 2 velocities = 192 targets; 3 dates; per target Range on 7 signal paths (1-4 legs: one-way, two-way, three-way to a second station, relayed open/closed) and Azimut/Elevation/Doppler on one of the 7 in turn; 6 mask tables x ~60 queries",
     "thorough": "10 lat x 8 lon x 4 alt = 320 stations; 12 az x 6 el x 4 ranges x 3 velocities = 864 targets; 3 dates; same masks, 2 stations",
 }
 ASSUMPTIONS = [
@@ -109,6 +109,8 @@ def make_station(name, lat_d, lon_d, alt, mask=None):
     G = _world()
     world.restore(G["snap"])
     _G.pop("masksta_key", None)
+    # a second, distinct station (receiving end of three-way / relayed signal paths)
+    _G["stb"] = create_station("StaB", (-(lat_d * 0.5) + 7.0, lon_d + 40.0, 250.0))
     return create_station(name, (lat_d, lon_d, alt), mask=mask)
 
 
@@ -116,7 +118,23 @@ def make_station(name, lat_d, lon_d, alt, mask=None):
 # one target
 
 
-def check_target(sta, site, dt, date, tg, t, with_measures=True):
+def signal_paths(sta, stb):
+    """(label, path, number of legs): one-way, two-way, three-way (other station), relayed open/closed paths."""
+    return [
+        ("1-leg", [sta, "sat"], 1),
+        ("2-legs/two-way", [sta, "sat", sta], 2),
+        ("2-legs/three-way", [sta, "sat", stb], 2),
+        ("3-legs/relay-other-station", [sta, "RELAY", "sat", stb], 3),
+        ("3-legs/relay-closed", [sta, "RELAY", "sat", sta], 3),
+        ("4-legs/relay-closed", [sta, "RELAY", "sat", "RELAY", sta], 4),
+        ("4-legs/two-relays-other-station", [sta, "R1", "sat", "R2", stb], 4),
+    ]
+
+
+N_PATHS = 7
+
+
+def check_target(sta, site, dt, date, tg, t, with_measures=True, pidx=0):
     """site = (lat_d, lon_d, alt); tg = (az, el, range, (vE, vN, vU))."""
     from mc.ref import geodesy as gd
     from beyond.orbits import StateVector
@@ -125,7 +143,7 @@ def check_target(sta, site, dt, date, tg, t, with_measures=True):
     G = _world()
     lat, lon, alt = math.radians(site[0]), math.radians(site[1]), site[2]
     az, el, rng, vel = tg
-    case = dict(kind="target", site=list(site), date=list(dt), target=[az, el, rng, list(vel)])
+    case = dict(kind="target", site=list(site), date=list(dt), target=[az, el, rng, list(vel)], pidx=int(pidx))
     s_ecef = gd.geodetic_to_ecef(lat, lon, alt, G["a"], G["f"])
     enu = gd.enu_from_az_el_range(az, el, rng)
     r_ecef = s_ecef + gd.enu_to_ecef(enu, lat, lon)
@@ -195,30 +213,40 @@ def check_target(sta, site, dt, date, tg, t, with_measures=True):
     # measures: exactly the topocentric quantities, range once per leg
     if with_measures:
         name = sta.name
+        paths = signal_paths(sta, _G["stb"])
+        lbl_a, path_a, _ = paths[pidx % N_PATHS]  # the angle / range-rate measures take the paths in turn
         try:
-            m_r1 = Range([sta, "sat"], date, None).from_orbit(sv)
-            m_r2 = Range([sta, "sat", sta], date, None).from_orbit(sv)
-            m_az = Azimut([sta, "sat"], date, None).from_orbit(sv)
-            m_el = Elevation([sta, "sat"], date, None).from_orbit(sv)
-            m_dp = Doppler([sta, "sat", sta], date, None).from_orbit(sv)
+            m_rs = [Range(pth, date, None).from_orbit(sv) for _, pth, _ in paths]
+            m_az = Azimut(path_a, date, None).from_orbit(sv)
+            m_el = Elevation(path_a, date, None).from_orbit(sv)
+            m_dp = Doppler(path_a, date, None).from_orbit(sv)
         except Exception as e:
-            t.fail("measures/raises", "measures can be simulated from an orbit", case, "5 measures", repr(e))
+            t.fail("measures/raises", "measures can be simulated from an orbit", case, "10 measures", repr(e))
             return
-        t.trans(5)
-        obs = [float(m_r1.value), float(m_r2.value), float(m_az.value), float(m_el.value), float(m_dp.value)]
-        exp = [r, 2 * r, theta, phi, r_dot]  # bit-for-bit the spherical coordinates of the same conversion
-        ref = [rng, 2 * rng, None, el, rr]
-        names = ["Range/1-leg", "Range/2-legs", "Azimut", "Elevation", "Doppler"]
+        t.trans(N_PATHS + 3)
+        m_r1 = m_rs[0]
+        obs = [float(m.value) for m in m_rs] + [float(m_az.value), float(m_el.value), float(m_dp.value)]
+        # bit-for-bit the spherical coordinates of the same conversion; range once per leg, the others never scaled
+        exp = [r * legs for _, _, legs in paths] + [theta, phi, r_dot]
+        ref = [rng * legs for _, _, legs in paths] + [None, el, rr]
+        names = ["Range/" + lbl for lbl, _, _ in paths] + ["Azimut/" + lbl_a, "Elevation/" + lbl_a, "Doppler/" + lbl_a]
         for nm, o, e, rf in zip(names, obs, exp, ref):
             if o != e:
                 ok = False
-                t.fail(f"measures/{nm}", "measure equals the topocentric quantity (range x number of legs)", case, e, o,
+                t.fail(f"measures/{nm}", "measure equals the topocentric quantity (range x number of legs; angles and range rate unscaled)", case, e, o,
                        f"{nm}: {o!r} vs spherical coordinate {e!r} (reference {rf!r})")
+        for m, (lbl, pth, _) in zip(m_rs, paths):
+            if list(m.path) != list(pth):
+                t.fail("measures/metadata", "measure carries the orbit's date and the station path", case, [str(x) for x in pth], [str(x) for x in m.path])
         if m_r1.date != date or m_r1.path[0] is not sta:
             t.fail("measures/metadata", "measure carries the orbit's date and the station path", case, [str(date), name], [str(m_r1.date), str(m_r1.path[0])])
-        if abs(wrap(-obs[2] - az)) > tol_az or abs(obs[0] - rng) > tol_r or abs(obs[1] - 2 * rng) > 2 * tol_r or abs(obs[3] - el) > tol_el:
+        bad_range = any(abs(o - rf) > legs * tol_r for o, rf, (_, _, legs) in zip(obs[:N_PATHS], ref[:N_PATHS], paths))
+        if bad_range or abs(wrap(-obs[N_PATHS] - az)) > tol_az or abs(obs[N_PATHS + 1] - el) > tol_el:
             ok = False
-            t.fail("measures/vs-reference", "measures equal the independent ENU quantities", case, [rng, 2 * rng, -az, el], obs[:4])
+            t.fail("measures/vs-reference", "measures equal the independent ENU quantities", case, ref[:N_PATHS] + [-az, el], obs[: N_PATHS + 2])
+        if speed and abs(obs[N_PATHS + 2] - rr) > tol_rr:
+            ok = False
+            t.fail("measures/vs-reference", "measures equal the independent ENU quantities", case, rr, obs[N_PATHS + 2])
     t.outcome(("target", sig, round(math.degrees(el)), rng, bool(speed), ok))
     t.ev(("T", tuple(site), tuple(dt), az, el, rng, tuple(vel)))
 
@@ -353,7 +381,7 @@ def check_case(case, t):
     if case["kind"] == "origin":
         return check_origin(sta, site, case["date"], date, t)
     az, el, rng, vel = case["target"]
-    check_target(sta, site, case["date"], date, (az, el, rng, tuple(vel)), t)
+    check_target(sta, site, case["date"], date, (az, el, rng, tuple(vel)), t, pidx=case.get("pidx", 0))
 
 
 def run_unit(p, t):
@@ -377,8 +405,8 @@ def run_unit(p, t):
             date = mk_date(dt)
             check_origin(sta, site, dt, date, t)
             n += 1
-            for x in tg:
-                check_target(sta, site, dt, date, x, t)
+            for i, x in enumerate(tg):
+                check_target(sta, site, dt, date, x, t, pidx=i)
                 n += 1
     t.states_add(n)
     if len(t.samples) < 1:
